@@ -12,7 +12,7 @@ from __future__ import annotations
 import asyncio
 
 from vf.gen import hdlc_gen, p1_gen, splits
-from vf.mon import clock, hdlc_mon, p1_mon, resync
+from vf.mon import clock, hdlc_mon, p1_mon, resync, transports
 from vf.props import c01 as c01mod
 from vf.props import c02 as c02mod
 from vf.ref import p1_ref
@@ -33,6 +33,7 @@ WATCHDOG_S = {"quick": 900, "thorough": 7200}
 N_CASES = {"quick": 260, "thorough": 9000}
 
 _loop = None
+_protocols = 0
 
 
 def _ensure_loop():
@@ -106,6 +107,21 @@ def run_protocol(chunks, cand_kind, cfg, payload_mode: bool, ctx, case):
     q: asyncio.Queue = asyncio.Queue()
     cls = meter_connection.SmartMeterMessagePayloadProtocol if payload_mode else meter_connection.SmartMeterMessageProtocol
     proto = cls(q, make_candidates(cand_kind, cfg))
+    # the protocol object's life as asyncio drives it: connection_made(transport) first - successive objects are reconnects to the
+    # same endpoint - and connection_lost() at the end; the endpoint kinds rotate (vf/mon/transports.py)
+    global _protocols
+    _protocols += 1
+    tkind = transports.kind_for(_protocols)
+    tr = None
+    if tkind != "none":
+        tr = transports.PlainTransport(tkind)
+        try:
+            proto.connection_made(tr)
+            ctx.count("protocols_given_a_transport_first")
+            ctx.seen("transport_kinds", tkind)
+        except Exception as ex:
+            ctx.violation(f"C13:connection_made-raised:{tkind}:{p1_mon.where(ex)}", f"connection_made() raised {ex!r:.160} for a {tkind} transport: the connection is dropped, nothing is forwarded", case)
+            return [], []
     fed = []
     for ch in chunks:
         clock.tick()
@@ -117,6 +133,12 @@ def run_protocol(chunks, cand_kind, cfg, payload_mode: bool, ctx, case):
             break
         fed.append(ch)
     items = drain(q)
+    if tr is not None and _protocols % 3 == 0:
+        try:
+            proto.connection_lost(None if _protocols % 2 else ConnectionResetError("peer went away"))
+        except Exception as ex:
+            ctx.seen("exceptions(decided by C14)", p1_mon.where(ex))
+        items += drain(q)
     if payload_mode:
         got = [bytes(x) if isinstance(x, (bytes, bytearray)) else ("non-bytes", repr(x)) for x in items]
     else:
